@@ -181,7 +181,7 @@ def main(argv=None):
             known_hit.append((mech, known[(pid, mech)], len(vs)))
         else:
             unknown.append((mech, vs))
-    rdir = os.path.join(VERIF, 'replays')
+    rdir = os.path.join(VERIF, 'replays') if not os.environ.get('VERIF_REPO') else os.path.join(tempfile.gettempdir(), 'vf-replays-other-tree')
     confirmed, unstable = [], []
     if unknown:
         os.makedirs(rdir, exist_ok=True)
@@ -243,8 +243,10 @@ def main(argv=None):
         'wall_s': round(wall, 2),
         'violations': len(confirmed),
     }
-    os.makedirs(os.path.join(VERIF, 'evidence'), exist_ok=True)
-    with open(os.path.join(VERIF, 'evidence', f'{pid}.json'), 'wt', encoding='utf-8') as f:
+    # evidence describes /repo: a run against another tree (VERIF_REPO, self-test only) must not overwrite it
+    edir = os.path.join(VERIF, 'evidence') if not os.environ.get('VERIF_REPO') else os.path.join(tempfile.gettempdir(), 'vf-evidence-other-tree')
+    os.makedirs(edir, exist_ok=True)
+    with open(os.path.join(edir, f'{pid}.json'), 'wt', encoding='utf-8') as f:
         json.dump(evidence, f, indent=1, default=str)
 
     print(
